@@ -93,6 +93,28 @@ fn prepare_w(plan: &Plan, window: bool) -> Option<Prepared> {
     Some(Prepared { w, filters, block, fork, set_start })
 }
 
+/// the stored tip is block #1 (no remembered headers below it): a heavier proof without reorg section makes commit_prove_state take
+/// its "previous last header is block#1" branch, which drops every pending record and rolls the index back to block 1
+fn prepare_one(plan: &Plan) -> Option<Prepared> {
+    let mut w = build(plan);
+    w.last_n = 6;
+    w.exec(&Op::Init);
+    w.exec(&Op::Prove { on_fork: false, height: 1 });
+    if Unpack::<u64>::unpack(&w.storage.get_tip_header().raw().number()) != 1 { return None; }
+    w.exec(&Op::SetScripts { cmd: 0, list: vec![(0, true, 0), (1, true, 0)] });
+    let h = 12u64.min(w.main.tip());
+    let peer = w.peer;
+    let mut fork = None;
+    {
+        let net = w.net.as_mut().unwrap();
+        let mut sent = net.lc_recv(peer, prover::last_state_message(&w.main.chain, h).as_bytes()).sent;
+        if !sent.iter().any(|(_, s)| matches!(s, Sent::GetLastStateProof(_))) { sent.extend(net.lc_tick(REFRESH_PEERS_TOKEN).sent); }
+        for (_, s) in sent { if let Sent::GetLastStateProof(req) = s { if let Some(resp) = prover::respond(&w.main.chain, &req) { fork = Some(packed::LightClientMessage::new_builder().set(resp).build().as_bytes()); } } }
+    }
+    fork.as_ref()?;
+    Some(Prepared { w, filters: None, block: None, fork, set_start: 3 })
+}
+
 fn snapshot(storage: &Storage, peers: &Peers, pool: &[packed::Script], numbers: &dyn Fn(&packed::Byte32) -> Option<u64>) -> String {
     let scripts: Vec<(usize, bool, u64)> = storage.get_filter_scripts().iter().map(|ss| (pool.iter().position(|s| s == &ss.script).unwrap_or(99), ss.script_type == ScriptType::Lock, ss.block_number)).collect();
     let tip: u64 = storage.get_tip_header().raw().number().unpack();
@@ -236,10 +258,16 @@ pub(crate) fn run(seed: u64, n: u64, out: &mut Out) {
         let fork_at = rng.range(len - 12, len - 6);
         let plan = Plan { seed: seed * 7_000 + world, len, fork_at, ops: vec![], last_n: 20 };
         reader_case(world, &plan, out);
+        for tip_one in [false, true] {
+        // (second pass: the client's stored tip is block #1 and the "fork-switch" message is a heavier proof from there - the rollback of
+        // commit_prove_state's block#1 branch next to set_scripts)
+        let prep = |window: bool| -> Option<Prepared> { if tip_one { prepare_one(&plan) } else { prepare_w(&plan, window) } };
+        let wl = format!("{}{}", world, if tip_one { "-tip1" } else { "" });
         // ---- each operation alone: number of writes, lock probe at every write, outcome ----
         let mut n_writes: Vec<u64> = Vec::new();
         for act in acts {
-            let prep = match prepare_w(&plan, act == Act::Tick) { Some(p) => p, None => { n_writes.push(0); continue; } };
+            if tip_one && !(act == Act::SetScripts || act == Act::Fork) { n_writes.push(0); continue; }
+            let prep = match prep(act == Act::Tick) { Some(p) => p, None => { n_writes.push(0); continue; } };
             let (parts, mut slots, _w) = split(prep);
             let mut po = Some(parts);
             let runner = match take_runner(&mut po, act, &mut slots) { Some(r) => r, None => { n_writes.push(0); continue; } };
@@ -257,8 +285,8 @@ pub(crate) fn run(seed: u64, n: u64, out: &mut Out) {
             let fl = flags.lock().unwrap().clone();
             n_writes.push(fl.len() as u64);
             let oracle = match fin { Ok(true) => Ok(()), Ok(false) => Err(format!("[C10-handler-panic] {} panicked: {}", act.name(), super::last_panic())), Err(_) => Err(format!("[C17-deadlock] {} alone does not finish", act.name())) };
-            out.case(&format!("split-{}-{}", world, act.name()), &["lock-split", act.name()], &format!("(expected_split {} {})", act.kind(), fl.len()), &Val::l(fl.iter().map(|b| Val::b(*b)).collect()), oracle,
-                &format!("world {}: {} makes {} database writes; the global lock is held at {:?}", world, act.name(), fl.len(), fl));
+            out.case(&format!("split-{}-{}", wl, act.name()), &["lock-split", act.name()], &(if tip_one { "(VN 1)".to_string() } else { format!("(expected_split {} {})", act.kind(), fl.len()) }), &(if tip_one { Val::n(1) } else { Val::l(fl.iter().map(|b| Val::b(*b)).collect()) }), oracle,
+                &format!("world {}: {} makes {} database writes; the global lock is held at {:?}", wl, act.name(), fl.len(), fl));
         }
         // ---- serial outcomes and interleavings for every ordered pair ----
         for (ia, a) in acts.iter().enumerate() {
@@ -270,7 +298,7 @@ pub(crate) fn run(seed: u64, n: u64, out: &mut Out) {
                 if window && !(*a == Act::SetScripts || *a == Act::Fork) { continue; }
                 if !window && n_writes[ib] == 0 { continue; }
                 let serial = |first: Act, second: Act| -> Option<String> {
-                    let prep = prepare_w(&plan, window)?;
+                    let prep = prep(window)?;
                     let (parts, mut slots, w) = split(prep);
                     let mut po = Some(parts);
                     let r1 = take_runner(&mut po, first, &mut slots)?;
@@ -287,7 +315,7 @@ pub(crate) fn run(seed: u64, n: u64, out: &mut Out) {
                 let ba = serial(*b, *a);
                 let (ab, ba) = match (ab, ba) { (Some(x), Some(y)) => (x, y), _ => continue };
                 for k in 1..=n_writes[ia] {
-                    let prep = match prepare_w(&plan, window) { Some(p) => p, None => continue };
+                    let prep = match prep(window) { Some(p) => p, None => continue };
                     let (parts, mut slots, w) = split(prep);
                     let mut po = Some(parts);
                     let (ra, rb) = match (take_runner(&mut po, *a, &mut slots), take_runner(&mut po, *b, &mut slots)) { (Some(x), Some(y)) => (x, y), _ => continue };
@@ -324,7 +352,7 @@ pub(crate) fn run(seed: u64, n: u64, out: &mut Out) {
                         }
                     }
                     let oracle = if problems.is_empty() { Ok(()) } else { Err(problems.join(" || ")) };
-                    out.case(&format!("pair-{}-{}-{}-{}", world, a.name(), b.name(), k), &["interleaving", a.name(), b.name(), if b_while_paused { "second-ran-during-pause" } else { "second-waited" }], "(VN 1)", &Val::n(1), oracle,
+                    out.case(&format!("pair-{}-{}-{}-{}", wl, a.name(), b.name(), k), &["interleaving", a.name(), b.name(), if b_while_paused { "second-ran-during-pause" } else { "second-waited" }], "(VN 1)", &Val::n(1), oracle,
                         &format!("world {}: {} paused before write {} of {}, then {} started", world, a.name(), k, n_writes[ia], b.name()));
                 }
             }
@@ -335,7 +363,7 @@ pub(crate) fn run(seed: u64, n: u64, out: &mut Out) {
         for (ia, a) in acts.iter().enumerate() {
             if !(*a == Act::Filters || *a == Act::Block || *a == Act::Fork) || n_writes[ia] == 0 { continue; }
             let serial = |first: Act, second: Act| -> Option<String> {
-                let prep = prepare_w(&plan, false)?;
+                let prep = prep(false)?;
                 let (parts, mut slots, w) = split(prep);
                 let mut po = Some(parts);
                 let r1 = take_runner(&mut po, first, &mut slots)?;
@@ -349,7 +377,7 @@ pub(crate) fn run(seed: u64, n: u64, out: &mut Out) {
                 Some(snapshot(&p.storage, &p.peers, &p.pool, &numbers))
             };
             let (ab, ba) = match (serial(*a, Act::SetScripts), serial(Act::SetScripts, *a)) { (Some(x), Some(y)) => (x, y), _ => continue };
-            let prep = match prepare_w(&plan, false) { Some(p) => p, None => continue };
+            let prep = match prep(false) { Some(p) => p, None => continue };
             let (parts, mut slots, w) = split(prep);
             let mut po = Some(parts);
             let ra = match take_runner(&mut po, *a, &mut slots) { Some(x) => x, None => continue };
@@ -377,8 +405,9 @@ pub(crate) fn run(seed: u64, n: u64, out: &mut Out) {
                 }
             }
             let oracle = if problems.is_empty() { Ok(()) } else { Err(problems.join(" || ")) };
-            out.case(&format!("locked-start-{}-{}", world, a.name()), &["interleaving", "started-under-held-lock", a.name(), if finished_early { "did-not-wait" } else { "waited" }], "(VN 1)", &Val::n(1), oracle,
+            out.case(&format!("locked-start-{}-{}", wl, a.name()), &["interleaving", "started-under-held-lock", a.name(), if finished_early { "did-not-wait" } else { "waited" }], "(VN 1)", &Val::n(1), oracle,
                 &format!("world {}: set_scripts holds the global lock, {} is started, set_scripts completes and releases", world, a.name()));
+        }
         }
     }
 }
